@@ -39,7 +39,8 @@ OBLIGATIONS = {"outside:left": 100, "outside:right": 100, "outside:bottom": 100,
                "construction-path:3": 20, "construction-path:4": 20,
                "construction-path:5": 20, "batch:single-value": 50,
                "batch:origin-inside": 5, "batch:whole-grid-size": 30,
-               "grid:more-than-2^31-cells": 1}
+               "grid:more-than-2^31-cells": 1, "dims:numpy-integer": 20,
+               "container:two-points": 50}
 
 
 def G():
@@ -87,7 +88,18 @@ def run_geom_case(ctx, case):
     seed = int(case["seed"])
     rng = np.random.default_rng(seed)
     g = Geom(nrows, ncols, xll, yll, csz)
-    gr = Grid("g", ncols, nrows, cellsize=csz, xllcorner=xll, yllcorner=yll)
+    # the dimensions as the caller may hold them: python ints or numpy integers of
+    # any width that can hold them (their product need not fit that width)
+    dkind = [int, np.int64, np.int32, np.int16, np.uint8, np.uint16, int][seed % 7]
+    try:
+        dnc, dnr = dkind(ncols), dkind(nrows)
+        if int(dnc) != ncols or int(dnr) != nrows:
+            dnc, dnr = ncols, nrows
+    except (OverflowError, ValueError):
+        dnc, dnr = ncols, nrows
+    if not isinstance(dnc, int):
+        ctx.tag("dims:numpy-integer")
+    gr = Grid("g", dnc, dnr, cellsize=csz, xllcorner=xll, yllcorner=yll)
     path = seed % 6
     if path in (4, 5):
         # a grid that was used with another geometry first (and, for path 5, cloned
@@ -174,6 +186,26 @@ def run_geom_case(ctx, case):
     ctx.evaluated(njudged)
     ctx.check("coord2cell.inside", bad is None, "coord2cell|inside-footprint", case,
               lambda: {"x,y,got,expected,edge_dist": bad})
+    # ---- two points handed over as a tuple / list of two arrays, of tuples, of lists
+    if len(pts) >= 2:
+        p2 = pts[:2]
+        e2 = [g.locate(float(a), float(b)) for a, b in p2]
+        if min(d_ for _, d_ in e2) >= 1e-9:
+            for cname, cont in (("tuple-of-arrays", (p2[0].copy(), p2[1].copy())),
+                                ("list-of-arrays", [p2[0].copy(), p2[1].copy()]),
+                                ("list-of-lists", p2.tolist()),
+                                ("tuple-of-tuples", tuple(map(tuple, p2.tolist())))):
+                ctx.tag("container:two-points")
+                ctx.api("coord2cell")
+                try:
+                    r2 = [int(v) for v in np.asarray(gr.coord2cell(cont)).ravel()]
+                except Exception:
+                    ctx.extra[f"container-refused:{cname}"] += 1
+                    continue
+                ctx.check("coord2cell.two-points-container", r2 == [c_ for c_, _ in e2],
+                          f"coord2cell|two-points-as-{cname}", case,
+                          lambda: {"points": p2.tolist(), "got": r2,
+                                   "expected": [c_ for c_, _ in e2]})
     # ---- batches that name every cell once, in another order, or as many cells as the
     # grid has with repeats (first and last cell at the ends)
     if 3 <= n <= 400:
